@@ -18,4 +18,33 @@ PLAN = {
              "partners (cancellation, half-ulp ties, nearby scales), uniform random pairs, 8-register dataflow programs; "
              "distinct = distinct (type, op, operands); non-trivial = no operand is zero or NaR",
     ),
+    "C02": dict(suites=["C02"], mc=["MCConv"],
+        rule="driver: for each target every (N+1)-bit rounding boundary (all for P8/P16, lattice+random for P32) +-2 float ulps in f32 and f64, "
+             "every posit value +-2 ulps, all IEEE exponents x significand classes, subnormals, zeros, infinities, NaNs, random; "
+             "distinct = distinct (target, source float bits); non-trivial = every one (floats have no zero/NaR operand rule)"),
+    "C03": dict(suites=["C03"], mc=["MCConv"],
+        rule="driver: every P8E0 and P16E1 pattern, P32E2 lattice + random; to_f32/to_f64 (3 spellings), f64 and Display/FromStr round trips"),
+    "C05": dict(suites=["C05"], mc=["MCRound"],
+        rule="driver: triples (a, b, c) with c aimed at -round(a*b) +- j ulp (cancellation), at half-ulp ties of the product, or free; "
+             "all three operations; specials^3; dataflow programs"),
+    "C06": dict(suites=["C06"], mc=["MCRound"],
+        rule="driver: every P8E0/P16E1 pattern; P32E2 lattice + random + perfect squares +-1 ulp"),
+    "C07": dict(suites=["C07"], mc=["MCConv"],
+        rule="driver: all i8/u8/i16/u16 values; for 32/64-bit types powers of two +-3, odd multiples of half-units at the rounding "
+             "position, type bounds, the constants in the code +-2, random; to-int: all P8/P16 patterns, P32 lattice + half-integers + bounds"),
+    "C08": dict(suites=["C08"], mc=["MCConv"],
+        rule="driver: all P8/P16 source patterns; P32 lattice + every P8/P16 rounding boundary +-2 ulp as a P32 pattern + random"),
+    "C09": dict(suites=["C09"], mc=["MCLaws"],
+        rule="driver: every P8E0/P16E1 pattern; P32E2 lattice + every scale x {x.0, x.5, +-ulp} + random; five functions"),
+    "C10": dict(suites=["C10"], mc=["MCLaws"],
+        rule="driver: all P8E0 pairs x 21 comparison/selection spellings; P16/P32 lattice pairs with neighbours, negations, random; "
+             "clamp triples; every unary sign/class function on every P8/P16 pattern"),
+    "C17": dict(suites=["C17"],
+        rule="driver: every spelling of every forwarded operation on the same lattice inputs (validated against one spec function, hence equal)"),
+    "C04": dict(suites=["C04"], mc=["MCQuire"], gen=["GenQuire"],
+        rule="driver: quire histories of length 1..64 (products and single posits, all spellings, NaR at random positions, "
+             "limb-straddling / tiny / huge / cancelling terms), each observed after every step; shuffled replays of the same bag"),
+    "C12": dict(suites=["C12"], mc=["MCQuire"],
+        rule="driver: posit->quire->posit for every P8/P16 pattern and P32 lattice+random; neg/clear/bits round trip/split at states "
+             "reached by random histories"),
 }
